@@ -1456,7 +1456,14 @@ func (c *Client) onPUBLISH(head byte) (message, topic []byte, err error) {
 		i += 2
 
 		bytes, err := c.persistence.Load(packetID | remoteIDKeyFlag)
-		if err != nil {
+		switch {
+		case err == nil:
+			break
+		case errors.Is(err, errValueCorrupt), errors.Is(err, errValueTruncated):
+			// The mere existence of a record marks the reception.
+			// Failure here would repeat with every redelivery.
+			bytes = []byte{}
+		default:
 			return nil, nil, err
 		}
 		if bytes != nil {
